@@ -31,6 +31,19 @@ CHECKS = {
               'expansion LP solved directly with HiGHS demands equality for continuous models too.'),
         note=('GridOpt is exact only on the grid; the two-sided verdict for continuous models rests on the float LP oracle '
               '(tolerance 2e-6 relative, x10 margin before a violation). Same bounds as C01.')),
+    'C08': dict(
+        level='model_checking',
+        technique='TLC lattice weak duality on StdForm.tla (transcribed DualLP and the real primal/dual pair) + primal+dual=0 through the solver interfaces',
+        design_ref='DESIGN.md 2.6, 5/C08, appendix C',
+        text=('StdForm.tla transcribes the LP dualisation branch by branch (bound rows, fixed-variable row, free / sign-restricted / '
+              'non-positive columns, equality rows). TLC enumerates programs over all 13 bound patterns per column and checks weak duality '
+              'of the transcribed dual on integer lattices; every program is built through the API (a quarter decorated with norm / square / '
+              'sumsqr / exp / log constraints), the REAL primal and dual standard forms go back to TLC, which checks weak duality of the real '
+              'pair exactly (LP rows, bounds, second-order cones in squares) and conformance with the transcription, and both programs are '
+              'solved with the same interface: the dual must be solvable whenever the primal is and the values must sum to zero.'),
+        note=('Lattice weak duality is a necessary condition (catches duals that are too optimistic or have wrong signs); strong duality '
+              'rests on the solver value check (LP 2e-6, SOC 2e-5, exp 5e-4, x10 margin). Exponential-cone duals are checked by value only. '
+              'Bounded: 2 user columns, <=2 rows.')),
     'C13': dict(
         level='model_checking',
         technique='TLC model checking of Partition.tla + replay of every exported history into rsome.dro + TLC trace validation',
